@@ -30,6 +30,7 @@ import vf
 
 LEVEL = "model_checking"
 MAXREPORT = 16
+MAXROUNDS = 40      # TLC runs per trace file: every rejected history costs one more run
 
 
 # ----------------------------------------------------------------------------- building / running
@@ -340,6 +341,8 @@ def classify(hist, trace, pos, inv, diag=None):
         # TLC's diagnostics register: what the specification's process held when the call could not be matched
         if diag and ev["s"] in diag.get("held", []):
             kind = "recomputes-checkpointed-sample"
+        elif diag and diag.get("pc") == "rec_old":
+            kind = "torn-main-accepted-as-checkpoint"      # the code computes on while the specification still has to try the backup
         elif diag and len(diag.get("held", [])) >= diag.get("budget", 0):
             # the life already holds `budget` samples; did it start from a recovered, non-empty state?
             kind = "budget-exceeded-after-recovery" if diag.get("rec") else "call-beyond-budget"
@@ -425,9 +428,9 @@ def validate_chunk(args):
                     "tlc": r.error_trace[-2500:] if inv else ""})
         n_ok += bad
         todo = todo[bad + 1:]
-        if len(rej) >= 6:
+        if len(rej) >= MAXROUNDS:
             break
-    return n_ok, rej, gen, dist, (len(todo) if len(rej) >= 6 and todo else 0)
+    return n_ok, rej, gen, dist, (len(todo) if len(rej) >= MAXROUNDS and todo else 0)
 
 
 # ----------------------------------------------------------------------------- the check
@@ -459,7 +462,7 @@ def gen_histories(wd, name, **kw):
 def configs(ctx):
     q = ctx.quick
     c = []
-    for fam in ["localp", "sequence", "wavelet"] + ([] if q else ["global", "fourier", "localpb"]):
+    for fam in ["localp", "sequence", "wavelet", "global"] + ([] if q else ["fourier", "localpb"]):
         c.append({"family": fam, "mode": "seq", "budget": 3, "batch": 1, "jobs": 1, "seed": 1, "preload": 0})
     # a caller grid that already owns > 1000 samples: several write(2) chunks per file and a non-empty trailing sample block
     c.append({"family": "localp", "mode": "seq", "budget": 3, "batch": 1, "jobs": 1, "seed": 1, "preload": 8})
@@ -469,7 +472,7 @@ def configs(ctx):
         c.append({"family": "wavelet", "mode": "seq", "budget": 4, "batch": 1, "jobs": 1, "seed": 1, "preload": 6})
         c.append({"family": "localp", "mode": "seq", "budget": 5, "batch": 2, "jobs": 1, "seed": 1, "preload": 8})
     # parallel mode, seeded schedules (model latencies follow the seed)
-    npar = 1 if q else 4
+    npar = 2 if q else 4
     for s in range(npar):
         c.append({"family": "localp", "mode": "par", "budget": 4, "batch": 1, "jobs": 2, "seed": ctx.seed * 100 + s, "preload": 0})
     if not q:
@@ -734,7 +737,7 @@ def run(ctx):
         ctx.sample({"kind": "TLC crash history (spec->code)", "history": two[len(two) // 3] if two else allgen[0]})
 
     # ---- 3. the real code
-    lim = {"singles": 70 if quick else 100000, "second_per_first": 3 if quick else 1000}
+    lim = {"singles": 90 if quick else 100000, "second_per_first": 5 if quick else 1000}
     hists = []
     only = os.environ.get("VERIF_C17_ONLY", "")      # debugging aid: restrict the configurations by name
     for cfg in configs(ctx):
@@ -764,8 +767,8 @@ def run(ctx):
     sigs = [classify(rj["hist"], rj["trace"], rj["pos"], rj["inv"], rj.get("diag")) for rj in rejs]
     kinds = {}
     for sg in sigs:
-        kinds[sg.split(":")[0] if not sg.startswith("two-crash") else ":".join(sg.split(":")[:2])] = \
-            kinds.get(sg.split(":")[0] if not sg.startswith("two-crash") else ":".join(sg.split(":")[:2]), 0) + 1
+        k = ":".join(sg.split(":")[:-1])        # kind : family : mode (without the kill-point labels)
+        kinds[k] = kinds.get(k, 0) + 1
     ctx.extra["rejections_by_kind"] = kinds
     seen_kind = set()
     order = []
